@@ -101,7 +101,32 @@ fn observe_set(store: &AnnotationStore, h: usize, probes: &[Sx], values: &[Sx]) 
                         }
                     }
                 };
-                l(vec![nats(found), b(tested)])
+                // the same search through the store-level routes, which walk data of ALL sets:
+                // AnnotationStore::find_data(set, key, op) and store.data().filter_key_handle_value(set, key, op);
+                // an item of another set shows as 10000 + handle
+                let key_item = match p.nth(0) {
+                    Sx::A(_) => None,
+                    k => {
+                        if k.nth(0).int() == 0 {
+                            set.key(kid(k.nth(1).int()).as_str())
+                        } else {
+                            set.key(DataKeyHandle::new(k.nth(1).int() as usize))
+                        }
+                    }
+                };
+                let (via_store, via_filter) = match key_item {
+                    None => (found.clone(), found.clone()),
+                    Some(key) => {
+                        let enc = |d: ResultItem<AnnotationData>| if d.set().handle() == set.handle() { d.handle().as_usize() } else { 10000 + d.handle().as_usize() };
+                        let op2 = dop(p.nth(1));
+                        let mut v1: Vec<usize> = store.find_data(set.handle(), key.handle(), op2.clone()).map(enc).collect();
+                        let mut v2: Vec<usize> = store.data().filter_key_handle_value(set.handle(), key.handle(), op2).map(enc).collect();
+                        v1.sort();
+                        v2.sort();
+                        (v1, v2)
+                    }
+                };
+                l(vec![nats(found), b(tested), nats(via_store), nats(via_filter)])
             })
             .collect();
         let byval = values
@@ -201,5 +226,5 @@ pub fn generate(out: &mut Out, tier: &str, seed: u64) {
     }
 }
 
-pub const RULE: &str = "seeded random histories as in C01 with typed values (null, bool, int -3..3, float on a 0.5 grid, strings incl. empty / non-BMP / numerals / 'true' / 'ON', nested lists), data with and without ids through datasets and through annotations, removals of data and keys (strict and not); after the history, per dataset: keys unique and id-less data never a second copy of an existing (key,value) (scan through the API), 24 probes (any key / key by id / key by handle, incl. unknown and removed keys) x random operator (all 21 variants incl. Not/And/Or nested to depth 2, Equals against bool/int/float/string, HasElement*) through find_data and test_data, and data_by_value for 3 keys x 6 values; then AnnotationStore::shrink_to_fit(true) and all of it again. One evaluation = one dataset record.";
+pub const RULE: &str = "seeded random histories as in C01 with typed values (null, bool, int -3..3, float on a 0.5 grid, strings incl. empty / non-BMP / numerals / 'true' / 'ON', nested lists), data with and without ids through datasets and through annotations, removals of data and keys (strict and not); after the history, per dataset: keys unique and id-less data never a second copy of an existing (key,value) (scan through the API), 24 probes (any key / key by id / key by handle, incl. unknown and removed keys) x random operator (all 21 variants incl. Not/And/Or nested to depth 2, Equals against bool/int/float/string, HasElement*) through find_data and test_data of the dataset and, for probes with a key, through AnnotationStore::find_data and store.data().filter_key_handle_value (which walk the data of all sets), and data_by_value for 3 keys x 6 values; then AnnotationStore::shrink_to_fit(true) and all of it again. One evaluation = one dataset record.";
 pub const EXHAUSTIVE: bool = false;
